@@ -3,6 +3,7 @@ package main
 import (
 	"context"
 	"net/http"
+	"sync/atomic"
 
 	"github.com/gorilla/websocket"
 	log "github.com/sirupsen/logrus"
@@ -39,8 +40,10 @@ func (wsfe *websocketFrontend) ServeHTTP(w http.ResponseWriter, r *http.Request)
 	log.Info("Websocket connected")
 
 	cancelObservation := func() {}
-	alive := true
-	for alive {
+	// alive is cleared by the onclose callback, which runs on the engine goroutine.
+	var alive atomic.Bool
+	alive.Store(true)
+	for alive.Load() {
 		msgtype, p, err := conn.ReadMessage()
 		if err != nil {
 			log.Errorf("Error reading websocket: %s", err)
@@ -67,7 +70,7 @@ func (wsfe *websocketFrontend) ServeHTTP(w http.ResponseWriter, r *http.Request)
 					)
 				},
 				func(err error) {
-					alive = false
+					alive.Store(false)
 				},
 			)
 		}
